@@ -62,11 +62,12 @@ int main(int argc, char **argv) {
         snoopy_inputdatastorage_store_filename("/usr/bin/some-program-path");
         snoopy_inputdatastorage_store_argv(cargv);
         snoopy_inputdatastorage_store_envp(environ);
-        if (!strcmp(k, "ds")) {
+        if (!strcmp(k, "ds") || !strcmp(k, "dsv")) {
             char *buf = malloc((size_t) n); memset(buf, 0x55, (size_t) n);
             int r = snoopy_datasourceregistry_callByName(name, buf, (size_t) n, argfor(cls));
             int nul = memchr(buf, 0, (size_t) n) != NULL;
             size_t len = nul ? strlen(buf) : (size_t) n;
+            if (!strcmp(k, "dsv")) { printf("VAL "); for (size_t q = 0; q < len; q++) printf("%02x", (unsigned char) buf[q]); printf("\n"); }
             printf("END ret=%d len=%zu nul=%d\n", r, len, nul);
             free(buf);
         } else if (!strcmp(k, "flt")) {
